@@ -38,9 +38,19 @@ def _ms(dt):
     return int(dt.timestamp() * 1000)
 
 
+def wire_view(op: dict) -> dict:
+    """What the service reports for an operation (simulator-private fields removed; lean mode omits an all-default StepDetails)."""
+    o = copy.deepcopy(op)
+    lean = o.pop("_lean", False)
+    sd = o.get("StepDetails")
+    if lean and sd is not None and set(sd) <= {"Attempt"} and not sd.get("Attempt"):
+        o.pop("StepDetails")
+    return o
+
+
 def op_to_json(op: dict) -> dict:
     """wire Operation (datetimes) -> JSON event form (ms timestamps)."""
-    o = copy.deepcopy(op)
+    o = wire_view(op)
     for k in ("StartTimestamp", "EndTimestamp"):
         if isinstance(o.get(k), _dt.datetime):
             o[k] = _ms(o[k])
@@ -71,6 +81,7 @@ class Backend:
         self.api_calls = 0
         self._pending_pages: dict[str, list[dict]] = {}
         self.on_apply = None  # hook(update, op) called after each applied update (world reactions)
+        self.lean_step_details = False  # world option "lean_step_details": a step that has not retried yet is reported WITHOUT StepDetails
         self.skew = 0.0  # world option "clock_skew": the service's clock is this many (virtual) seconds ahead of the function host's
         self.empty_page_every = 0  # pages option "empty_every": every k-th page fetch answers with no operations but a marker
         self.timer_lag = 0.0  # virtual seconds by which the service is late in acting on a due timer (world option "timer_lag")
@@ -236,7 +247,7 @@ class Backend:
         return {"Operations": ops, "NextMarker": nm}
 
     def ops_with_dt(self, o_json: dict) -> dict:
-        return copy.deepcopy(self.ops[o_json["Id"]]) if o_json["Id"] in self.ops else o_json
+        return wire_view(self.ops[o_json["Id"]]) if o_json["Id"] in self.ops else o_json
 
     # ------------------------------------------------------------------ checkpoint
     def checkpoint(self, token: str, updates: list[dict], resp_page: int | None = None) -> dict:
@@ -247,7 +258,7 @@ class Backend:
         for u in updates:
             self.apply_update(u)
         tok = self._new_token()
-        changed = [copy.deepcopy(self.ops[i]) for i in self.dirty if i in self.ops]
+        changed = [wire_view(self.ops[i]) for i in self.dirty if i in self.ops]
         self.dirty = []
         nm = None
         if resp_page is not None and len(changed) > resp_page:
@@ -285,6 +296,7 @@ class Backend:
             self.oddities.append({"kind": "update-after-terminal", "Id": oid, "Action": act, "status": before})
         if typ == "STEP":
             sd = op.setdefault("StepDetails", {"Attempt": 0})
+            op["_lean"] = self.lean_step_details
             if act == "START":
                 op["Status"] = "STARTED"
                 sd.pop("NextAttemptTimestamp", None)
